@@ -20,6 +20,17 @@ CHECKS = {
             "Trusted: TLC, the table/directory extraction (vf/extract.py), the recording harness. bisect_left is transcribed in the spec; "
             "the implementation is bound to it only through the recorded observations (all requests in the thorough tier).",
             "DESIGN.md section 5 C12"),
+    "C10": (MC, "TLC exhaustive model check of the grid/neighbour-tree state machine (LocalGridSys.tla) + TLC trace validation of "
+                "behaviours replayed on 13 concrete grid classes",
+            "TLC checks for ALL histories of Query/SetPoints/SetWeights/GetItem over small constants that a query answers for the "
+            "current points and weights (QueryCorrect, TreeFresh, InfIsWholeGrid, ItemCorrect), refutes the as-shipped variant (tree kept "
+            "on reassignment) and reaches the witness states; TLC then enumerates every behaviour of length 3 (42 875) of the same machine; "
+            "they and seeded longer random behaviours are replayed on Grid 1-3D, OneDGrid, LocalGrid, AngularGrid, AtomGrid, MolGrid, "
+            "Tensor1DGrids, UniformGrid and PeriodicGrid objects with integer-valued points, every step is logged and the recorded traces "
+            "are judged event by event by TLC against the specification (LocalGridTrace.tla).",
+            "Trusted: TLC, the recording driver (vf/props/c10.py), exactness of cKDTree for radii not attained by a lattice distance. "
+            "Selections that select nothing and infinite radii on PeriodicGrid (C11) are outside this check.",
+            "DESIGN.md section 5 C10"),
 }
 
 NOT_YET = {}
